@@ -97,8 +97,10 @@ def run_case(spec):
         feats.append("multimodel")
         body = [it for it in items if it != "END"]
         allm = []
+        numbers = rng.choice([list(range(1, nmodels + 1)), list(range(9, 9 + nmodels)), [2, 10, 11][:nmodels],
+                              list(range(nmodels, 0, -1))])
         for k in range(nmodels):
-            allm.append("MODEL     %4d" % (k + 1))
+            allm.append("MODEL     %4d" % numbers[k])
             for it in body:
                 if isinstance(it, dict):
                     allm.append(dict(it, x=it["x"] + 1.37 * k, y=it["y"] - 0.61 * k, z=it["z"] + 0.29 * k))
